@@ -74,8 +74,15 @@ pub enum COp {
     Del { k: u8 },
     Batch { items: Vec<(u8, Option<u8>)> },
     Get { k: u8 },
-    /// scan of key indices lo..hi (normalised so lo <= hi)
-    Scan { lo: u8, hi: u8 },
+    /// scan of key indices lo..hi (normalised so lo <= hi); `mode` picks how the range is walked:
+    /// 0 forward from seek_to_first, 1 backward from seek_to_last, 2 unbounded start + seek(lo key),
+    /// 3 Excluded start bound (the key before lo) walked forward
+    Scan {
+        lo: u8,
+        hi: u8,
+        #[serde(default)]
+        mode: u8,
+    },
     /// open a cursor over everything, read `first` entries, run the rest of this thread's program,
     /// then finish the walk: everything it returns must equal the snapshot at open time
     HeldScan { first: u8 },
@@ -100,7 +107,7 @@ fn cop_strategy() -> impl Strategy<Value = COp> {
         2 => any::<u8>().prop_map(|k| COp::Del { k }),
         4 => prop::collection::vec((any::<u8>(), prop::option::weighted(0.75, sz2)), 2..7).prop_map(|items| COp::Batch { items }),
         5 => any::<u8>().prop_map(|k| COp::Get { k }),
-        3 => (any::<u8>(), any::<u8>()).prop_map(|(lo, hi)| COp::Scan { lo, hi }),
+        3 => (any::<u8>(), any::<u8>(), prop_oneof![3 => Just(0u8), 2 => Just(1u8), 1 => Just(2u8), 1 => Just(3u8)]).prop_map(|(lo, hi, mode)| COp::Scan { lo, hi, mode }),
         1 => (0u8..4).prop_map(|first| COp::HeldScan { first }),
     ]
 }
@@ -285,24 +292,46 @@ pub fn run_case(ctx: &Ctx, c: &ThreadedCase) -> RunResult {
                             Err(e) => errors.push(format!("get failed: {e:?}")),
                         }
                     }
-                    COp::Scan { lo, hi } => {
+                    COp::Scan { lo, hi, mode } => {
                         let (a, b) = (key_of(&universe, *lo), key_of(&universe, *hi));
                         let (lo, hi) = (a.min(b), a.max(b) + 1);
+                        let mode = *mode;
                         let inv = stamp(&sh);
                         let r = (|| -> Result<Vec<(usize, Val)>, String> {
+                            // the universe is sorted, so "the key before lo" is universe[lo - 1]
                             let hi_bound = if hi < universe.len() { Bound::Excluded(universe[hi].clone()) } else { Bound::Unbounded };
-                            let lo_bound = Bound::Included(universe[lo].clone());
+                            let lo_bound = match mode {
+                                2 => Bound::Unbounded,
+                                3 if lo > 0 => Bound::Excluded(universe[lo - 1].clone()),
+                                3 => Bound::Unbounded,
+                                _ => Bound::Included(universe[lo].clone()),
+                            };
                             let mut cur = k.range_scan::<Vec<u8>>(&lo_bound, &hi_bound).map_err(|e| format!("{e:?}"))?;
-                            cur.seek_to_first().map_err(|e| format!("{e:?}"))?;
+                            let backward = mode == 1;
+                            match mode {
+                                1 => cur.seek_to_last().map_err(|e| format!("{e:?}"))?,
+                                2 => {
+                                    // seek positions AT the first entry >= key; step back once so that
+                                    // the loop's next() lands on it
+                                    cur.seek(&universe[lo]).map_err(|e| format!("{e:?}"))?;
+                                    cur.prev().map_err(|e| format!("{e:?}"))?;
+                                }
+                                _ => cur.seek_to_first().map_err(|e| format!("{e:?}"))?,
+                            }
                             let mut out = vec![];
                             loop {
-                                cur.next().map_err(|e| format!("{e:?}"))?;
+                                if backward { cur.prev() } else { cur.next() }.map_err(|e| format!("{e:?}"))?;
                                 match cur.key_value() {
                                     Some(kv) => {
                                         let ki = universe.iter().position(|u| u.as_slice() == kv.key).ok_or_else(|| "scan returned an unknown key".to_string())?;
                                         out.push((ki, kv.value.map(id_of).unwrap_or(0)));
                                     }
-                                    None => return Ok(out),
+                                    None => {
+                                        if backward {
+                                            out.reverse();
+                                        }
+                                        return Ok(out);
+                                    }
                                 }
                             }
                         })();
@@ -361,6 +390,26 @@ pub fn run_case(ctx: &Ctx, c: &ThreadedCase) -> RunResult {
                 match walk {
                     Err(e) => held_bad.push(format!("a cursor held while the store moved failed: {e}")),
                     Ok(all) => {
+                        // the same snapshot walked backwards
+                        let back = (|| -> Result<Vec<(Vec<u8>, Vec<u8>)>, String> {
+                            cur.seek_to_last().map_err(|e| format!("{e:?}"))?;
+                            let mut out = vec![];
+                            loop {
+                                cur.prev().map_err(|e| format!("{e:?}"))?;
+                                match cur.key_value() {
+                                    Some(kv) => out.push((kv.key.to_vec(), kv.value.map(|v| v.to_vec()).unwrap_or_default())),
+                                    None => {
+                                        out.reverse();
+                                        return Ok(out);
+                                    }
+                                }
+                            }
+                        })();
+                        match back {
+                            Err(e) => held_bad.push(format!("a cursor held while the store moved failed walking backwards: {e}")),
+                            Ok(b) if b != all => held_bad.push(format!("a held cursor returned {:?} forwards but {:?} backwards", all.iter().map(|e| gens::show(&e.0)).collect::<Vec<_>>(), b.iter().map(|e| gens::show(&e.0)).collect::<Vec<_>>())),
+                            Ok(_) => {}
+                        }
                         if all.len() < first.len() || all[..first.len()] != first[..] {
                             held_bad.push(format!("a held cursor returned {:?} when opened but {:?} when walked again later", first.iter().map(|e| gens::show(&e.0)).collect::<Vec<_>>(), all.iter().map(|e| gens::show(&e.0)).collect::<Vec<_>>()));
                         }
